@@ -335,6 +335,7 @@ package security
 //@   loop 1 invariant stored: has(cache.sessions, negotiation.SessionId) && cache.sessions[negotiation.SessionId].tag == a.config.SecurityTag
 //@   assert before call NewSessionEntry #1 tagged: arg6 == a.config.SecurityTag && arg0 == negotiation.SessionId && arg2 != nil
 //@   assert before call SessionCache).MapCommand #1 same_route: arg1 == a.config.SecurityTag && arg4 == negotiation.SessionId
+//@   assert before call SessionCache).MapCommand #1 only_declared_commands: [C07] partOf(arg3, negotiation.ValidCommands)
 //@   ensures cached_under_tag: [C07] keyed ==> has(cache.sessions, negotiation.SessionId) && cache.sessions[negotiation.SessionId].tag == a.config.SecurityTag && cache.sessions[negotiation.SessionId].keyInfo != nil
 
 // ---- server-side resumption (C06) ----------------------------------------------------------------
@@ -342,6 +343,7 @@ package security
 //@   trusted
 //@   pure
 //@   nonnil
+//@   deterministic
 
 //@ func (*Authenticator).handleSessionResumption (a, ctx, sessionID, clientAd, command) (result, err)
 //@   props C06
@@ -420,7 +422,8 @@ package security
 //@ func (*Authenticator).storeSession (a, negotiation, sessionID, durationSecs, leaseSecs)
 //@   props C06
 //@   requires given: a.config != nil && negotiation != nil && negotiation.ServerConfig != nil
-//@   preserves security.SecurityConfig security.Authenticator stream.Stream security.SecurityNegotiation
+//@   let keyed = len(negotiation.sharedSecret) > 0 && aesName(negotiation.NegotiatedCrypto)
+//@   assigns clockNow, when(keyed, lock(&GetSessionCache().mu)), when(keyed, mapof(GetSessionCache().sessions))
 //@   assert before call NewSessionEntry #1 keyed_entry: arg2 != nil && arg0 == sessionID && arg6 == a.config.SecurityTag
 
 //@ func (*Authenticator).createPostAuthAd (a, negotiation) (result)
